@@ -71,7 +71,17 @@ impl<T: Write + Send + 'static> Worker<T> {
             let handle_result = self.handle_try_recv(&try_recv_result);
             worker_state = handle_result?;
         }
-        self.writer.flush()?;
+        let flushed = self.writer.flush();
+        // A shutdown (or disconnect) must not be forgotten because this flush
+        // failed: the message has already been consumed from the channel, so the
+        // caller would wait for another one forever.
+        if matches!(
+            worker_state,
+            WorkerState::Shutdown | WorkerState::Disconnected
+        ) {
+            return Ok(worker_state);
+        }
+        flushed?;
         Ok(worker_state)
     }
 
